@@ -4,7 +4,7 @@ PROPS[pid]["rules"] = [(rule id, floor of decided instances, selector over insta
 Floors are the numbers counted on the tree the rules were written against: a rule that suddenly
 matches fewer sites is a broken check (exit 2), never a silent pass.
 """
-from . import tr, di, ug, em, wt, mf, lp, wc, mk, nc, lt, td, pm, hs, ws, tf, ec, se, bb, lc, cm, vt, bt, sr, le, wf, dp, dt, he, gl, ts, ee, sl, wp, fs, ic, nb, im, rn, mp, sp, ms, cp, sh, st, rh, vo, wi, law, cn, pr, dtr, sa, vx, fd, uv, tx, df, dn
+from . import tr, di, ug, em, wt, mf, lp, wc, mk, nc, lt, td, pm, hs, ws, tf, ec, se, bb, lc, cm, vt, bt, sr, le, wf, dp, dt, he, gl, ts, ee, sl, wp, fs, ic, nb, im, rn, mp, sp, ms, cp, sh, st, rh, vo, wi, law, cn, pr, dtr, sa, vx, fd, uv, tx, df, dn, pa
 
 
 def has(*subs):
@@ -86,6 +86,7 @@ RULES = {
     "TX": {"run": tx.run},
     "DF": {"run": df.run},
     "DN": {"run": dn.run},
+    "PA": {"run": pa.run},
 }
 
 BDD_T = ("BddNode", "BddPtr")
@@ -94,7 +95,7 @@ SDD_T = ("BinarySDD", "SddOr", "SddAnd", "SddPtr")
 PROPS = {
     "C01": {
         "level": "other",
-        "rules": [("DI", 0, None), ("DF", 1, has("VarOrder", "label-tables")), ("CP", 19, has("builder::bdd::", "repr::bdd::BddPtr", "cache::all_app", "cache::lru_app")),
+        "rules": [("PA", 1, None), ("DI", 0, None), ("DF", 1, has("VarOrder", "label-tables")), ("CP", 19, has("builder::bdd::", "repr::bdd::BddPtr", "cache::all_app", "cache::lru_app")),
                   ("IM", 14, has("IM2", "IM3")), ("HE", 2, has("BddNode:scratch", "BddNode:fields")),
                   ("DT", 7, has("BddPtr", "BottomUpBuilder::or:", "BottomUpBuilder::compose:")),
                   ("FS", 2, has("or_lst", "and_lst")), ("ST", 2, None), ("GL", 1, has("GL6")), ("VO", 14, vo_sel("::bdd::", "var_order")),
@@ -116,7 +117,7 @@ PROPS = {
     },
     "C03": {
         "level": "other",
-        "rules": [("DI", 0, None), ("DF", 1, has("VTreeManager", "label-tables")), ("TR", 0, has("repr::sdd", "builder::sdd")), ("CP", 32, has("builder::sdd::", "repr::sdd::SddPtr", "cache::all_app::AllIteTable:compl-flag")), ("DT", 7, has("SddPtr", "BottomUpBuilder::or:", "BottomUpBuilder::compose:")),
+        "rules": [("PA", 1, None), ("DI", 0, None), ("DF", 1, has("VTreeManager", "label-tables")), ("TR", 0, has("repr::sdd", "builder::sdd")), ("CP", 32, has("builder::sdd::", "repr::sdd::SddPtr", "cache::all_app::AllIteTable:compl-flag")), ("DT", 7, has("SddPtr", "BottomUpBuilder::or:", "BottomUpBuilder::compose:")),
                   ("IM", 14, has("IM2", "IM3")), ("HE", 4, has("BinarySDD:scratch", "SddOr:scratch", "BinarySDD:fields", "SddOr:fields")),
                   ("ST", 2, None), ("SH", 1, has("SddPtr> for T>::condition")), ("SA", 10, None), ("VX", 11, None),
                   ("VO", 1, vo_sel("::sdd::", only_label_order=True)),
@@ -132,7 +133,7 @@ PROPS = {
     },
     "C06": {
         "level": "other",
-        "rules": [("DN", 1, None), ("DI", 0, None), ("WC", 2, has("watch-tables")), ("DF", 1, has("UnitPropagate", "VarOrder", "label-tables")), ("CP", 4, has("decision_nnf::")), ("TS", 7, has("TS-BAL")), ("DP", 3, has("topdown")),
+        "rules": [("PA", 1, None), ("DN", 1, None), ("DI", 0, None), ("WC", 2, has("watch-tables")), ("DF", 1, has("UnitPropagate", "VarOrder", "label-tables")), ("CP", 4, has("decision_nnf::")), ("TS", 7, has("TS-BAL")), ("DP", 3, has("topdown")),
                   ("GL", 3, has("component-cache", "topdown_h:GL11")), ("SP", 10, has("SP1")),
                   ("GL", 1, has("GL3:return-found")), ("RH", 1, has("grow:rehome")),
                   ("SH", 6, has("decision_nnf::")), ("RN", 3, has("RN4")),
@@ -149,7 +150,7 @@ PROPS = {
     },
     "C07": {
         "level": "other",
-        "rules": [("DF", 1, has("WmcParams", "label-tables")), ("DI", 0, None), ("DP", 8, has("unsmoothed_wmc", "evaluate")), ("CP", 8, has("fold", "bdd_fold_h", "BddPtr::low", "BddPtr::high")),
+        "rules": [("PA", 1, None), ("DF", 1, has("WmcParams", "label-tables")), ("DI", 0, None), ("DP", 8, has("unsmoothed_wmc", "evaluate")), ("CP", 8, has("fold", "bdd_fold_h", "BddPtr::low", "BddPtr::high")),
                   ("MS", 13, None), ("FS", 6, has("fold", "wmc", "assignment_weight", "bb_ub", "marginal_map")),
                   ("SH", 3, has("SH5")), ("LAW", 55, None), ("LT", 1, has("WmcParams")),
                   ("SP", 14, has("SP1", "SP2")), ("NB", 33, None), ("WT", 5, hasnot("from_litvec")), ("IC", 1, has("repr::wmc::")), ("WC", 4, has("bdd-node")), ("VO", 1, vo_sel("builder::bdd", only_label_order=True))],
@@ -161,7 +162,7 @@ PROPS = {
     },
     "C08": {
         "level": "other",
-        "rules": [("GL", 1, lambda r: "::bdd::" in r["key"] and (":GL9:" in r["key"] or ":GL6:" in r["key"])), ("DF", 1, has("WmcParams", "VarOrder", "label-tables")), ("DI", 0, None), ("SL", 7, None), ("CP", 2, has("smooth_helper")), ("VO", 3, has("var_at_level", "new_last", "VarOrder::new:inverse-by-construction")), ("LAW", 55, None), ("IC", 1, has("repr::wmc::")), ("LT", 1, has("WmcParams")), ("WT", 5, hasnot("from_litvec")), ("NB", 33, None),
+        "rules": [("PA", 1, None), ("GL", 1, lambda r: "::bdd::" in r["key"] and (":GL9:" in r["key"] or ":GL6:" in r["key"])), ("DF", 1, has("WmcParams", "VarOrder", "label-tables")), ("DI", 0, None), ("SL", 7, None), ("CP", 2, has("smooth_helper")), ("VO", 3, has("var_at_level", "new_last", "VarOrder::new:inverse-by-construction")), ("LAW", 55, None), ("IC", 1, has("repr::wmc::")), ("LT", 1, has("WmcParams")), ("WT", 5, hasnot("from_litvec")), ("NB", 33, None),
                   ("SP", 14, has("SP1", "SP2")), ("MS", 13, None), ("SH", 1, has("BddPtr as repr::ddnnf::DDNNFPtr>::fold:SH5"))],
         "explanation": "Level bookkeeping of smooth_helper: every node built is labelled with var_at_level(current) or with a "
                        "node variable that a dominating test equates with it, children recurse one level down, smooth starts "
@@ -170,7 +171,7 @@ PROPS = {
     },
     "C10": {
         "level": "proof",
-        "rules": [("WC", 4, has("hash-memo")), ("TR", 0, has("semantic_hash")), ("DI", 0, None), ("SP", 17, None), ("IM", 9, has("IM5")), ("HE", 3, has("scratch-private")), ("HE", 3, has(":fields")), ("GL", 8, has("GL6", "GL9")),
+        "rules": [("PA", 1, None), ("WC", 4, has("hash-memo")), ("TR", 0, has("semantic_hash")), ("DI", 0, None), ("SP", 17, None), ("IM", 9, has("IM5")), ("HE", 3, has("scratch-private")), ("HE", 3, has(":fields")), ("GL", 8, has("GL6", "GL9")),
                   ("DP", 2, has("unsmoothed_wmc:fold", "evaluate:via-count"))],
         "explanation": "Structural proof of 'every per-node scratch slot is empty again when a public call returns', for all "
                        "call sequences: the only per-node mutable state is the two private RefCell fields (HE), the scratch "
@@ -183,7 +184,7 @@ PROPS = {
     },
     "C11": {
         "level": "other",
-        "rules": [("GL", 1, has("component-cache")), ("DN", 1, None), ("DI", 0, None), ("WC", 4, has("hash-memo")), ("DF", 1, has("WmcParams", "label-tables")), ("TR", 0, has("semantic", "backing_store")), ("CM", 3, has("compress:CM")), ("CP", 4, has("cached_semantic_hash:sign", "check_cached_hash_and_neg")), ("IM", 3, has("IM5:semantic_hash")),
+        "rules": [("PA", 1, None), ("GL", 1, has("component-cache")), ("DN", 1, None), ("DI", 0, None), ("WC", 4, has("hash-memo")), ("DF", 1, has("WmcParams", "label-tables")), ("TR", 0, has("semantic", "backing_store")), ("CM", 3, has("compress:CM")), ("CP", 4, has("cached_semantic_hash:sign", "check_cached_hash_and_neg")), ("IM", 3, has("IM5:semantic_hash")),
                   ("NB", 33, None), ("IC", 4, has("create_semantic_hash_map")), ("GL", 6, has("GL7", "GL3:return-found")), ("WC", 2, has("sdd-apply-cache")), ("RH", 1, has("grow:rehome")),
                   ("CP", 3, has("decision_nnf::builder::DecisionNNFBuilder::cond_helper")), ("SE", 11, None), ("WC", 6, has("sdd-node"))],
         "explanation": "Hash values follow the pointer's sign (complemented -> negate(hash of the regular pointer)) and a node "
@@ -194,7 +195,7 @@ PROPS = {
     },
     "C02": {
         "level": "other",
-        "rules": [("DI", 0, None), ("DF", 1, has("VarOrder", "label-tables")), ("GL", 4, has("GL3", "GL2:slot-write", "GL2:grow")), ("TS", 3, has("TS-OCC")), ("HE", 4, has(*BDD_T)),
+        "rules": [("PA", 1, None), ("DI", 0, None), ("DF", 1, has("VarOrder", "label-tables")), ("GL", 4, has("GL3", "GL2:slot-write", "GL2:grow")), ("TS", 3, has("TS-OCC")), ("HE", 4, has(*BDD_T)),
                   ("SH", 1, has("ite_helper:SH1")), ("WC", 4, has("bdd-node")),
                   ("RN", 4, has("RN1", "RN2")), ("IM", 37, has("IM3", "IM4", "IM2")), ("RH", 14, None),
                   ("VO", 14, vo_sel("::bdd::", "var_order")), ("ST", 2, None)],
@@ -209,7 +210,7 @@ PROPS = {
     },
     "C04": {
         "level": "other",
-        "rules": [("DI", 0, None), ("DF", 1, has("VTreeManager", "label-tables")), ("RN", 8, has("RN3")), ("HE", 7, has(*SDD_T)), ("GL", 2, has("GL3")), ("TS", 3, has("TS-OCC")),
+        "rules": [("PA", 1, None), ("DI", 0, None), ("DF", 1, has("VTreeManager", "label-tables")), ("RN", 8, has("RN3")), ("HE", 7, has(*SDD_T)), ("GL", 2, has("GL3")), ("TS", 3, has("TS-OCC")),
                   ("IM", 22, has("IM4")), ("RH", 14, None), ("CM", 8, None), ("WC", 6, has("sdd-node"))],
         "explanation": "Order of SDD canonicalisation steps on every path to the unique tables (trim, compress, trim, sort, "
                        "sign-normalise, intern: RN3), Hash/Eq agreement of BinarySDD/SddOr/SddAnd and identity Hash/Eq of "
@@ -219,7 +220,7 @@ PROPS = {
     },
     "C05": {
         "level": "other",
-        "rules": [("DI", 0, None), ("DP", 21, has("compile_logical_expr", "compile_plan", "BottomUpPlan::")),
+        "rules": [("PA", 1, None), ("DI", 0, None), ("DP", 21, has("compile_logical_expr", "compile_plan", "BottomUpPlan::")),
                   ("FS", 10, has("compile_cnf", "or_lst", "and_lst", "from_dtree", "compile_plan", "compile_logical_expr", "reduce<-")), ("DT", 1, has("BottomUpBuilder::or:")),
                   ("SH", 5, has(":CC:")), ("ST", 2, None), ("GL", 1, has("GL6")),
                   ("CP", 3, has("cond_with_alloc", "condition_essential")), ("LC", 1, has("compile_cnf_with_assignments")),
@@ -234,7 +235,7 @@ PROPS = {
     },
     "C09": {
         "level": "other",
-        "rules": [("DI", 0, None), ("WC", 2, has("watch-tables")), ("DF", 1, has("UnitPropagate", "label-tables")), ("WP", 14, has("unit_prop")), ("TS", 5, has("TS-STK")), ("WI", 1, None), ("PR", 1, has("SATSolver")),
+        "rules": [("PA", 1, None), ("DI", 0, None), ("WC", 2, has("watch-tables")), ("DF", 1, has("UnitPropagate", "label-tables")), ("WP", 14, has("unit_prop")), ("TS", 5, has("TS-STK")), ("WI", 1, None), ("PR", 1, has("SATSolver")),
                   ("LT", 2, has("UnitPropagate")), ("PM", 5, has("::get:", "::unset:", "::is_set:", "::lit_implied:", "::lit_neg_implied:")),
                   ("WS", 20, None), ("TF", 1, None), ("EC", 4, None), ("LC", 1, has("UnitPropagate::decide")), ("LP", 6, None), ("UG", 1, None), ("EM", 2, has("unit_prop"))],
         "explanation": "Every pos/neg watch-list / occurrence-table access in unit_prop.rs is selected by the polarity of "
@@ -246,7 +247,7 @@ PROPS = {
     },
     "C12": {
         "level": "other",
-        "rules": [("DI", 0, None), ("TR", 0, has("repr::bdd::BddPtr")), ("BB", 22, None), ("LAW", 6, has(":join", ":meet", ":choose")), ("LAW", 2, has("RealSemiring:eq-is-value-equality", "ExpectedUtility:eq-is-value-equality")), ("VO", 1, vo_sel("repr::bdd", only_label_order=True)), ("LAW", 5, has("ExpectedUtility:mul", "ExpectedUtility:distrib", "ExpectedUtility:add", "ExpectedUtility:one", "ExpectedUtility:zero")),
+        "rules": [("PA", 1, None), ("DI", 0, None), ("TR", 0, has("repr::bdd::BddPtr")), ("BB", 22, None), ("LAW", 6, has(":join", ":meet", ":choose")), ("LAW", 2, has("RealSemiring:eq-is-value-equality", "ExpectedUtility:eq-is-value-equality")), ("VO", 1, vo_sel("repr::bdd", only_label_order=True)), ("LAW", 5, has("ExpectedUtility:mul", "ExpectedUtility:distrib", "ExpectedUtility:add", "ExpectedUtility:one", "ExpectedUtility:zero")),
                   ("FS", 2, lambda x: "repr::bdd::BddPtr::" in x["key"] and x["key"].endswith("<-Mul")), ("PM", 4, has("::set:", "::get:", "assignment_iter", "shared-model-restored"))],
         "explanation": "Decides the part of 'returns the optimum and an assignment attaining it' that is in the shape of the three "
                        "sibling searches (marginal_map_h, meu_h, bb_h), their bound functions and drivers, checked identically on "
@@ -266,7 +267,7 @@ PROPS = {
     },
     "C13": {
         "level": "other",
-        "rules": [("DI", 0, None), ("NB", 33, None), ("LAW", 55, None)],
+        "rules": [("PA", 1, None), ("DI", 0, None), ("NB", 33, None), ("LAW", 55, None)],
         "explanation": "Interval analysis of FiniteField::{new,negate,add,mul,sub} for each of the 7 exported primes with the "
                        "type invariant v in [0,P-1]: no u128 overflow/underflow (NB); every FiniteField literal is reduced "
                        "(NB-inv); subtraction borrows the modulus (NB-mod); polynomial coefficient writes are bounded by "
@@ -275,7 +276,7 @@ PROPS = {
     },
     "C14": {
         "level": "other",
-        "rules": [("DI", 0, None), ("DF", 1, has("VarOrder", "VTreeManager", "label-tables")), ("IC", 13, hasnot("repr::cnf::Cnf::from_dimacs")), ("VO", 15, vo_sel("var_order", "vtree", "dtree", "force_order")), ("DTR", 5, None), ("VX", 11, None),
+        "rules": [("PA", 1, None), ("DI", 0, None), ("DF", 1, has("VarOrder", "VTreeManager", "label-tables")), ("IC", 13, hasnot("repr::cnf::Cnf::from_dimacs")), ("VO", 15, vo_sel("var_order", "vtree", "dtree", "force_order")), ("DTR", 5, None), ("VX", 11, None),
                   ("LT", 2, has("VarOrder", "VTreeManager")), ("VT", 5, None), ("BT", 9, None),
                   ("NC", 1, has("DTree::from_cnf")), ("MF", 4, None), ("EM", 4, has("DTree::from_cnf", "force_order", "average_span", "interaction_graph")), ("FD", 2, None)],
         "explanation": "Dimension analysis (Index / Count / OneBased): every function called num_vars returns a count, every "
@@ -284,7 +285,7 @@ PROPS = {
     },
     "C15": {
         "level": "other",
-        "rules": [("DI", 0, None), ("DF", 1, has("CnfHasher", "label-tables")), ("EE", 3, None), ("IC", 5, has("repr::cnf::")), ("WP", 1, has("repr::cnf::")),
+        "rules": [("PA", 1, None), ("DI", 0, None), ("DF", 1, has("CnfHasher", "label-tables")), ("EE", 3, None), ("IC", 5, has("repr::cnf::")), ("WP", 1, has("repr::cnf::")),
                   ("FS", 3, has("repr::cnf::", "assignment_weight")), ("CN", 2, None),
                   ("PR", 1, has("CnfHasher")), ("LT", 2, has("CnfHasher")),
                   ("PM", 9, None), ("HS", 5, None), ("LC", 2, has("is_sat_partial", "Cnf::eval", "Cnf::condition")), ("LP", 6, None), ("WT", 1, has("from_litvec")), ("DP", 1, has("from_string:sign")), ("EM", 6, has("repr::cnf::"))],
@@ -296,7 +297,7 @@ PROPS = {
     },
     "C16": {
         "level": "proof",
-        "rules": [("DI", 0, None), ("TR", 0, has("util::lru", "builder::cache", "app_cache", "ite_cache")), ("GL", 24, hasnot("GL3", "component-cache", "GL6", "GL7")), ("CP", 2, has("IteTable:compl-flag")), ("ST", 2, None)],
+        "rules": [("PA", 1, None), ("DI", 0, None), ("TR", 0, has("util::lru", "builder::cache", "app_cache", "ite_cache")), ("GL", 24, hasnot("GL3", "component-cache", "GL6", "GL7")), ("CP", 2, has("IteTable:compl-flag")), ("ST", 2, None)],
         "explanation": "Complete structural argument for the first sentence: Lru::get returns Some(e.val) only under the "
                        "true edge of e.key == key (GL1); insert writes one Element{key,val,hash} of its own arguments into "
                        "the slot that get reads, grow re-inserts whole triples (GL2); the adapter's hash is a function of "
@@ -305,7 +306,7 @@ PROPS = {
     },
     "C17": {
         "level": "other",
-        "rules": [("DI", 0, None), ("MP", 1, has("variable-numbering")), ("DP", 12, has("from_sexpr", "VTreeSerializer", "from_dimacs", "to_dimacs")), ("IC", 1, has("from_dimacs")),
+        "rules": [("PA", 1, None), ("DI", 0, None), ("MP", 1, has("variable-numbering")), ("DP", 12, has("from_sexpr", "VTreeSerializer", "from_dimacs", "to_dimacs")), ("IC", 1, has("from_dimacs")),
                   ("CP", 6, has("serialize::")), ("CN", 1, has("repr::cnf::")), ("SR", 3, None), ("LE", 7, None),
                   ("NC", 5, has("from_dimacs", "to_dimacs")), ("SP", 0, has("SP1:serialize", "SP1:ffi::bdd::bdd_to_json")), ("LP", 6, None), ("DP", 1, has("from_string:sign")), ("EM", 3, has("from_dimacs", "to_dimacs")), ("UV", 1, None), ("TX", 2, None)],
         "explanation": "The s-expression translation and the vtree mirror map each variant to its namesake with children in "
@@ -315,7 +316,7 @@ PROPS = {
     },
     "C18": {
         "level": "proof",
-        "rules": [("DI", 0, None), ("TR", 0, has("ffi::")), ("WF", 56, None)],
+        "rules": [("PA", 1, None), ("DI", 0, None), ("TR", 0, has("ffi::")), ("WF", 56, None)],
         "explanation": "Wrapper faithfulness of all 65 #[no_mangle] extern \"C\" exports: the value each wrapper "
                        "returns (or the one effect call it makes), reconstructed from its MIR as a term over its "
                        "parameters with marshalling stripped, equals the native operation and argument "
@@ -327,7 +328,7 @@ PROPS = {
     },
     "C19": {
         "level": "other",
-        "rules": [("DI", 0, None), ("GL", 1, lambda r: "::bdd::" in r["key"] and (":GL9:" in r["key"] or ":GL6:" in r["key"])), ("MP", 8, None), ("SL", 7, None), ("CP", 3, has("ser_bdd")), ("VO", 3, has("var_at_level", "VarOrder::new:inverse-by-construction")),
+        "rules": [("PA", 1, None), ("DI", 0, None), ("GL", 1, lambda r: "::bdd::" in r["key"] and (":GL9:" in r["key"] or ":GL6:" in r["key"])), ("MP", 8, None), ("SL", 7, None), ("CP", 3, has("ser_bdd")), ("VO", 3, has("var_at_level", "VarOrder::new:inverse-by-construction")),
                   ("CN", 1, has("dedup")), ("DP", 9, has("from_dimacs:sign", "from_sexpr")), ("DP", 4, has("compile_logical_expr", "BottomUpPlan::from_dtree")), ("SR", 1, has("ser_bdd")),
                   ("NC", 4, has("Cnf::from_dimacs", "DTree::from_cnf")), ("MF", 4, None), ("EM", 3, has("DTree::from_cnf", "force_order", "average_span")), ("SH", 1, has("ite_helper:SH1")), ("UV", 1, None), ("TX", 1, has("Cnf::from_dimacs"))],
         "explanation": "In each tool the counted / serialised diagram is the compiled one, compiled on a builder whose order "
